@@ -405,10 +405,18 @@ def wireHeaders (r : Req) : Headers :=
     else r.hdr
   | none => r.hdr
 
+def insertEntry (e : Bytes × List Bytes) : List (Bytes × List Bytes) → List (Bytes × List Bytes)
+  | [] => [e]
+  | y :: ys => if bytesLe e.1 y.1 then e :: y :: ys else y :: insertEntry e ys
+
+/-- Map entries in the order `Header.Write` emits them: sorted by key as stored (stable: several
+model entries under one key are one Go map entry). -/
+def sortEntries (l : List (Bytes × List Bytes)) : List (Bytes × List Bytes) := l.foldr insertEntry []
+
 /-- Values a server reads for header `k`: map entries are matched by canonical form on receipt,
 so a non-canonical map key counts too. -/
 def wireValues (h : Headers) (key : Bytes) : List Bytes :=
-  (h.filter fun e => canonicalMIMEHeaderKey e.1 == canonicalMIMEHeaderKey key).flatMap (·.2)
+  (sortEntries (h.filter fun e => canonicalMIMEHeaderKey e.1 == canonicalMIMEHeaderKey key)).flatMap (·.2)
 
 def lastIndexOf (c : UInt8) (s : Bytes) : Option Nat := lastIndexByte c s
 
@@ -424,5 +432,60 @@ def removeZone (host : Bytes) : Bytes :=
 
 /-- The `Host` header (`:authority`) the transport writes. -/
 def wireHost (r : Req) : Bytes := removeZone (if r.hostField.isEmpty then r.url.host else r.hostField)
+
+/-! ## the caller's side: `Client.roundTrip` builds the first request
+
+`req.Request` → `*http.Request` (client.go `roundTrip`, after the request middlewares
+`parseRequestHeader`, `parseRequestCookie`, `parseRequestURL`): client-level common headers fill
+the keys the request does not set, request cookies then client cookies are appended to the
+`Cookie` header, an empty port is dropped from the URL, and `http.Request.Host` is the `Host`
+header if one is set (the override), else `URL.Host`. -/
+
+def hHost : Bytes := [72, 111, 115, 116]
+
+structure ApiCall where
+  url : Url
+  method : Bytes
+  /-- `Request.Headers` as the caller left them (map entries, keys as stored) -/
+  headers : Headers := []
+  /-- `Request.Cookies` (name, value) -/
+  cookies : List (Bytes × Bytes) := []
+  /-- a replayable body was set (`SetBody…`: `GetBody` is defined exactly then) -/
+  body : Bool := false
+  deriving Repr
+
+structure ApiClient where
+  commonHeaders : Headers := []
+  commonCookies : List (Bytes × Bytes) := []
+  /-- `Client.AllowGetMethodPayload` (true for `C()`) -/
+  allowGetPayload : Bool := true
+  deriving Repr
+
+def mOPTIONS : Bytes := [79, 80, 84, 73, 79, 78, 83]
+
+/-- client.go `isPayloadForbid`: `parseRequestBody` drops body and `GetBody` for these methods. -/
+def payloadForbidden (cl : ApiClient) (m : Bytes) : Bool :=
+  (m == mGET && !cl.allowGetPayload) || m == mHEAD || m == mOPTIONS
+
+/-- middleware.go `parseRequestHeader`: `if len(r.Headers[k]) == 0 { r.Headers[k] = vs }` (raw keys). -/
+def mergeCommon (client req : Headers) : Headers :=
+  client.foldl (fun r e => if ((r.filter fun x => x.1 == e.1).flatMap (·.2)).isEmpty then r ++ [e] else r) req
+
+/-- http_request.go `removeEmptyPort`. -/
+def removeEmptyPort (h : Bytes) : Bytes := if hasSuffixByte 58 h then h.dropLast else h
+
+def initialRequest (cl : ApiClient) (a : ApiCall) : Req :=
+  let hdr := mergeCommon cl.commonHeaders a.headers
+  let url := { a.url with host := removeEmptyPort a.url.host }
+  let host := hget hdr hHost
+  { url := url, method := a.method, hostField := if host.isEmpty then url.host else host,
+    hdr := (a.cookies ++ cl.commonCookies).foldl addCookie hdr,
+    body := a.body && !payloadForbidden cl a.method }
+
+/-- `client.R()…Send(method, url)` against a script. -/
+def apiStart (ps : List (Option Policy)) (jar : Bool) (cl : ApiClient) (a : ApiCall)
+    (script : List Reply) : List Req × End :=
+  let ireq := initialRequest cl a
+  start { ps := ps, jar := jar, getBody := ireq.body, noBody := !ireq.body } ireq script
 
 end Req.Redirect.Loop
